@@ -1138,8 +1138,21 @@ def c08(rep, tier):
                            m.callee(e).split('::')[-1] in ('insert', 'emplace', 'try_emplace') and table_of(strip_casts(e['obj']))[0] == 'potential_breaks']
             appends = [e for e in walk_all_exprs(bp['body']) if e.get('k') == 'call' and m.callee(e).split('::')[-1] in ('push_back', 'emplace_back', 'insert_or_assign')
                        and e not in only_create]
+            replaced = None
+            for e in walk_all_exprs(bp['body']):
+                tgt = None
+                if e.get('k') == 'assign' and e.get('op', '=') == '=':
+                    tgt = strip_casts(e['l'])
+                elif e.get('k') == 'call' and m.callee(e).endswith('::operator=') and e.get('obj') is not None:
+                    tgt = strip_casts(e['obj'])
+                if tgt is not None and is_call(tgt, '::operator[]') and table_of(tgt['obj'])[0] == 'potential_breaks':
+                    replaced = e
             if gone:
                 A.violation('breakpoint(): both tables', '%s is not updated at all when a site is created' % ' and '.join(gone), W(m, bp))
+            elif pbk is None and replaced is not None and not appends:
+                A.violation('breakpoint(): site list entry', 'the site list of the location is replaced by a new one-element list (%s): the earlier sites of the same source line are '
+                            'dropped from potential_breaks (they cannot be armed) while line_info still reports them' % show(replaced)[:60], W(m, bp, replaced),
+                            witness={'input': 'two statements on one line: x0 := 1; x1 := 2'})
             elif pbk is None and only_create and not appends:
                 A.violation('breakpoint(): site list entry', 'the site is entered with %s(), which does nothing when the location already has an entry: the second and every later '
                             'site of a source line is missing from potential_breaks (it cannot be armed) while line_info still reports it' % m.callee(only_create[0]).split('::')[-1],
